@@ -9,6 +9,7 @@ import (
 	"github.com/orda-io/orda/client/pkg/model"
 	"google.golang.org/protobuf/proto"
 	"pgregory.net/rapid"
+	"verif/cluster"
 	"verif/fakemongo"
 	"verif/sim"
 	"verif/stats"
@@ -91,6 +92,10 @@ func c16Mutate(rt *rapid.T, w *l1World, req *model.PushPullMessage, c *l1Client,
 		p.Key = "unknown-key-" + p.Key
 	case "option-bits":
 		p.Option = uint32(rapid.IntRange(0, 127).Draw(rt, "bits"))
+		if rapid.IntRange(0, 2).Draw(rt, "undefined_bits") == 0 {
+			// the option is a 32-bit word of which seven bits are defined: any value is a structurally valid message
+			p.Option |= rapid.SampledFrom([]uint32{0x80, 0x100, 0x8000, 0x80000000, 0xffffff80}).Draw(rt, "high_bits")
+		}
 	case "cp-stale":
 		p.CheckPoint = &model.CheckPoint{Sseq: 0, Cseq: 0}
 	case "cp-future":
@@ -253,6 +258,10 @@ func TestC16PushPull(t *testing.T) {
 		}
 		if resp == nil && rpcErr == nil {
 			c.failf("the request mutated by %v was answered with neither a response nor an error", muts)
+		}
+		if pe, ok := rpcErr.(*cluster.PanicError); ok {
+			// (the harness calls the service method on a goroutine of its own and recovers; the gRPC server does not)
+			c.failf("the request mutated by %v made the goroutine that serves the RPC panic - a gRPC server without a recovery interceptor dies: %v\n%s", muts, pe.Value, firstLines(pe.Stack, 12))
 		}
 		w.env.WaitBackground(3 * time.Second)
 		refused := refusedPushPull(resp, rpcErr)
@@ -585,4 +594,13 @@ func TestC16RealClient(t *testing.T) {
 			return map[string]interface{}{"kind": kind, "cause": cause, "first_error": fmt.Sprint(ferr), "retry_error": fmt.Sprint(lastErr)}
 		})
 	})
+}
+
+// firstLines returns the first n lines of s.
+func firstLines(s string, n int) string {
+	ls := strings.Split(s, "\n")
+	if len(ls) > n {
+		ls = ls[:n]
+	}
+	return strings.Join(ls, "\n")
 }
